@@ -7,6 +7,7 @@ package main
 //	trace timeout <alone|fallback|async> <short|near|long|block> <dur µs>
 //	  => see:<c>:<early> … fnret:0 listener:<early> ret:<inner|exceeded>:<early> final:<listener calls>:<IsCanceled>
 //	trace future <get|exec> <readers> <cancel after µs|-1> <fn µs>
+//	trace hedge <maxHedges> <any|odd> <µs:c>…   => hedge enter:<k> finish:<k>:<c> ret:<k> see:<k>:<b>
 //	  => isdone:<b> closed:<b> listener got cancel …
 //
 // Stamping rule for monotone observations (IsCanceled, IsDone, Done closed only ever go false -> true): a `true` reading is stamped
@@ -27,6 +28,7 @@ import (
 
 	"github.com/failsafe-go/failsafe-go"
 	"github.com/failsafe-go/failsafe-go/fallback"
+	"github.com/failsafe-go/failsafe-go/hedgepolicy"
 	"github.com/failsafe-go/failsafe-go/timeout"
 )
 
@@ -91,6 +93,8 @@ func (traceSlice) exec(t []string) string {
 		return traceTimeout(t[1], t[2], time.Duration(atoi(t[3]))*time.Microsecond)
 	case "future":
 		return traceFuture(t[1], int(atoi(t[2])), atoi(t[3]), time.Duration(atoi(t[4]))*time.Microsecond)
+	case "hedge":
+		return traceHedge(int(atoi(t[1])), t[2], t[3:])
 	}
 	return "bad-op"
 }
@@ -222,6 +226,54 @@ func traceFuture(entry string, readers int, cancelAfterUs int64, fnDur time.Dura
 	return rec.String()
 }
 
+// traceHedge: one real hedged execution. spec[j] = "<µs>:<c>": how long the j-th entered attempt runs and whether the value it returns
+// matches the cancel conditions ("odd": CancelIf(value is odd); "any": no conditions configured, every result is accepted).
+func traceHedge(maxHedges int, conds string, spec []string) string {
+	rec := &traceRec{}
+	b := hedgepolicy.BuilderWithDelay[int](400 * time.Microsecond).WithMaxHedges(maxHedges).
+		OnHedge(func(failsafe.ExecutionEvent[int]) { rec.stamp("hedge") })
+	if conds == "odd" {
+		b.CancelIf(func(v int, _ error) bool { return v%2 == 1 })
+	}
+	var ids atomic.Int32
+	var emu sync.Mutex
+	execs := map[int]failsafe.Execution[int]{}
+	fn := func(e failsafe.Execution[int]) (int, error) {
+		j := int(ids.Add(1)) - 1
+		rec.stamp(fmt.Sprintf("enter:%d", j))
+		emu.Lock()
+		execs[j] = e
+		emu.Unlock()
+		f := strings.Split(spec[min(j, len(spec)-1)], ":")
+		c := f[1] == "1"
+		waitOrCancel(e, time.Duration(atoi(f[0]))*time.Microsecond)
+		rec.stamp(fmt.Sprintf("finish:%d:%s", j, b01(c || conds == "any")))
+		if c {
+			return 101 + 2*j, nil
+		}
+		return 100 + 2*j, nil
+	}
+	val, err := failsafe.NewExecutor[int](b.Build()).GetWithExecution(fn)
+	if err != nil {
+		return "unexpected-error:" + strings.ReplaceAll(err.Error(), " ", "_")
+	}
+	rec.stamp(fmt.Sprintf("ret:%d", (val-100)/2))
+	emu.Lock()
+	snapshot := map[int]failsafe.Execution[int]{}
+	for j, e := range execs {
+		snapshot[j] = e
+	}
+	emu.Unlock()
+	for j := 0; j <= maxHedges; j++ {
+		if e, ok := snapshot[j]; ok {
+			c := e.IsCanceled()
+			rec.stamp(fmt.Sprintf("see:%d:%s", j, b01(c)))
+		}
+	}
+	// attempts still running have been cancelled and return at once; one that enters only now stamps into a recorder nobody reads
+	return rec.String()
+}
+
 func init() {
 	slices["trace"] = func() slice { return traceSlice{} }
 	generators["trace"] = func(r *rand.Rand, n int, tier string, emit func(string) string) {
@@ -240,6 +292,14 @@ func init() {
 					dur = 20000
 				}
 				emit(fmt.Sprintf("trace timeout %s %s %d", pick(r, "alone", "alone", "fallback", "async"), kind, dur))
+			}
+			for k := 0; k < 3; k++ {
+				mh := r.Intn(4)
+				var spec []string
+				for j := 0; j <= mh; j++ {
+					spec = append(spec, fmt.Sprintf("%d:%d", pick(r, 0, 100, 350, 450, 700, 1200, 2000), r.Intn(2)))
+				}
+				emit(fmt.Sprintf("trace hedge %d %s %s", mh, pick(r, "any", "odd", "odd"), strings.Join(spec, " ")))
 			}
 			for k := 0; k < 4; k++ {
 				cancel := -1
